@@ -196,6 +196,50 @@ theorem shell_exitBlock (q : Q) (c : Nat) (e : Exit) (hpos : 0 < q.k.unfinished)
         subst hx'
         exact List.mem_append_left _ (hs.ready j x hx hsch)
 
+/-- a hand mark: the item it takes is unfinished work, so `task_done()` finds a positive counter; the joiners it wakes
+are queued -/
+theorem shell_handTake (q : Q) (hi : q.k.Inv) (hs : q.Shell) : q.handTake.Shell := by
+  unfold handTake
+  split
+  · exact hs
+  · rename_i y rest hit
+    have hpos : 0 < q.k.unfinished := hi.pos_of_items y rest hit
+    have hne : ¬ q.k.unfinished = 0 := by omega
+    have hk : q.k.handTake = ({ q.k with items := rest, takes := q.k.takes + 1 } : K).taskDone := by
+      unfold K.handTake; rw [hit]
+    constructor
+    · intro h
+      simp only [hne, if_false, List.mem_append, List.mem_cons, List.not_mem_nil, or_false] at h
+      rcases h with h | h | h
+      · exact hs.noVE h
+      · cases h
+      · cases h
+    · intro j x' hx' hsch
+      simp only [hk] at hx' ⊢
+      cases hx : q.k.joiners[j]? with
+      | none =>
+        have hl : ¬ j < q.k.joiners.length := by
+          intro hl; rw [List.getElem?_eq_getElem hl] at hx; cases hx
+        have h1 := (List.getElem?_eq_some_iff.1 hx').1
+        rw [K.length_joiners_taskDone] at h1
+        exact absurd h1 hl
+      | some x =>
+        have ht := (K.joiner_taskDone ({ q.k with items := rest, takes := q.k.takes + 1 } : K) hpos j x hx).2
+        rw [ht] at hx'
+        simp only [Option.some.injEq] at hx'
+        by_cases hw : q.k.unfinished = 1 ∧ K.wakes ({ q.k with items := rest, takes := q.k.takes + 1 } : K) j x = true
+        · obtain ⟨h1, h2⟩ := hw
+          simp only [K.wakes, Bool.and_eq_true, List.contains_iff_mem, beq_iff_eq] at h2
+          simp only [h1, if_true, List.mem_append]
+          right
+          simp only [K.wokenRefs, List.mem_map, List.mem_filter]
+          exact ⟨j, ⟨h2.1, by simp [hx, h2.2]⟩, rfl⟩
+        · have hw' : ¬ (({ q.k with items := rest, takes := q.k.takes + 1 } : K).unfinished = 1
+              ∧ K.wakes ({ q.k with items := rest, takes := q.k.takes + 1 } : K) j x = true) := hw
+          rw [if_neg hw'] at hx'
+          subst hx'
+          exact List.mem_append_left _ (hs.ready j x hx hsch)
+
 theorem shell_stepConsumer (q : Q) (c : Nat) (hi : q.k.Inv) (hs : q.Shell) : (q.stepConsumer c).Shell := by
   unfold stepConsumer
   split
@@ -284,6 +328,7 @@ theorem shell_step (q : Q) (i : Input) (hi : q.k.Inv) (hs : q.Shell) : (q.step i
   | join => exact shell_join q hs
   | cancel c => exact (ext_cancelConsumer q c).shell hs
   | gate c e => exact (ext_gate q c e).shell hs
+  | take => exact shell_handTake q hi hs
   | run n =>
     simp only [step]
     split
